@@ -88,6 +88,15 @@ CHECKS = {
             "A socket.socket subclass overriding recv is an admissible socket; real kernel sockets (thorough only) have "
             "uncontrolled timing but the oracle does not depend on it.",
             "DESIGN.md 3/C02"),
+    "C19": ("exploration",
+            "enumeration of every file size n = 0..14 and every packet index 0..n+1 with Hypothesis-generated header "
+            "sets, CLI driven in-process (click CliRunner), printed rows compared with an own header decoding",
+            "Every n from 0 to 14 packets (both sides of the elision threshold) with generated distinct headers is "
+            "listed and every index 0..n+1 (and none) is parsed; files with truncated tails (every cut of a trailing "
+            "packet) are included. Rows, markers, exit code and absence of exceptions are asserted; termination is "
+            "decided by a counting cap on the framer. Complete over n and the indices, sampled over header values.",
+            "Output is read with COLUMNS=220 so that rich neither wraps nor elides cells; negative indices are not claimed.",
+            "DESIGN.md 3/C19"),
 }
 
 PENDING_REASON = "check not built yet in this round (planned, see DESIGN.md section 3); nothing is claimed for it"
